@@ -244,7 +244,7 @@ def main():
             "observe it through scripted callbacks, spies and a virtual clock; REDRESS_VERIF=1 is exported but unused; "
             "source_commits lists the unguarded `fix:` commits (repairs of genuine defects, see known-findings.txt), not hooks",
             "baseline_off_cmd": "cd /repo && /venv/bin/python -m pytest -ra -q -p no:cacheprovider --timeout=900",
-            "source_commits": ["7959b97", "4805882", "e37d3df", "a10e77c", "7a1aae8", "844555a", "ca75464"],
+            "source_commits": ["7959b97", "4805882", "e37d3df", "a10e77c", "7a1aae8", "844555a", "ca75464", "57ff40d"],
             "add_only": True,
         },
         "engines": [
